@@ -86,3 +86,26 @@ contract(
         types={"ret": "bytearray", "whitespace": "bytearray", "value_array": "bytearray"},
     )},
 )
+
+# ---- subsection names: _unescape_subsection undoes _escape_subsection (same ghost relation; specials are \\ and ", code = the byte)
+def _sub_spec():
+    sp = "(plain[k] == 92 or plain[k] == 34)"
+    return [
+        f"{EPOS.format(k='0')} == 0 and len(E) == {EPOS.format(k='len(plain)')}",
+        f"all({EPOS.format(k='k + 1')} == {EPOS.format(k='k')} + (2 if {sp} else 1) for k in range(0, len(plain)))",
+        f"all((E[{EPOS.format(k='k')}] == 92 and E[{EPOS.format(k='k')} + 1] == plain[k]) if {sp} else E[{EPOS.format(k='k')}] == plain[k] for k in range(0, len(plain)))",
+        f"all(0 <= {EPOS.format(k='k')} and {EPOS.format(k='k')} <= len(E) for k in range(0, len(plain) + 1))",
+        f"all({EPOS.format(k='k')} < len(E) for k in range(0, len(plain)))",
+    ]
+contract(
+    prop=["C20"], file=F, func="_unescape_subsection#roundtrip",
+    params={"name": "bytes"}, ghost_params={"plain": "bytes", "E": "bytes"}, returns="bytes",
+    requires=_sub_spec() + ["len(name) == len(E) and all(name[j] == E[j] for j in range(0, len(name)))"],
+    raises={},
+    ensures=["len(result) == len(plain)", "all(result[k] == plain[k] for k in range(0, len(plain)))"],
+    loops={1: dict(
+        invariant=["len(out) <= len(plain) and all(out[j] == plain[j] for j in range(0, len(out)))", f"i == {EPOS.format(k='len(out)')}"],
+        decreases="len(name) - i",
+        types={"out": "bytearray"},
+    )},
+)
